@@ -1726,20 +1726,18 @@ impl Domain for D {
             writeln!(w, "sweep 1 {} {} -", to_hex(&hdr1), n).unwrap();
         }
         if thorough {
-            // all two-byte streams (split by first byte), and all three-byte streams that start
-            // with PLAYER_DIFF 0, TICK_SKIP or PLAYER_NEW
+            // all two-byte streams (split by first byte)
             for p in 0..256u32 {
                 writeln!(w, "sweep 2 {} 1 {:02x}", to_hex(&hdr2), p).unwrap();
                 writeln!(w, "sweep 1 {} 1 {:02x}", to_hex(&hdr1), p).unwrap();
             }
-            for p in [0x00u32, 0x41, 0x42] {
-                for q in 0..256u32 {
-                    writeln!(w, "sweep 2 {} 1 {:02x}{:02x}", to_hex(&hdr2), p, q).unwrap();
-                }
+            // all three-byte streams (version 2), split by first byte
+            for p in 0..256u32 {
+                writeln!(w, "sweep 2 {} 2 {:02x}", to_hex(&hdr2), p).unwrap();
             }
         }
         // random server histories
-        let n_hist = if thorough { 300 } else { 56 };
+        let n_hist = if thorough { 800 } else { 56 };
         for k in 0..n_hist {
             let ver = if rng.chance(1, 6) { 1 } else { 2 };
             let hv = if rng.chance(1, 5) { 1 + rng.below(2) as u32 } else { 0 };
@@ -1764,7 +1762,7 @@ impl Domain for D {
                 let k = rng.below(calls as u64 + 1);
                 emit(w, if total > 3000 { "hash" } else { "run" }, ver, &hdr, &s, &format!("x{}/{}", k, f));
             }
-            if total <= (if thorough { 1500 } else { 800 }) {
+            if total <= (if thorough { 2500 } else { 800 }) {
                 emit(w, "all2", ver, &hdr, &s, "");
             } else {
                 for _ in 0..(if thorough { 60 } else { 6 }) {
